@@ -57,7 +57,9 @@ class Aggregate:
             self.first_seed = rs
         self.last_seed = rs
         first = res[sorted(res)[0]]
-        if first.get('nontrivial'):
+        if first.get('case_keys') is not None:
+            self.keys.update(first['case_keys'])
+        elif first.get('nontrivial'):
             self.keys.add(first.get('case_key'))
         for h in sorted(res):
             merge(self.stats, res[h].get('stats', {}))
